@@ -758,6 +758,8 @@ pub fn gen_mutant_of(rng: &mut Rng, orig: &Prog, which: usize) -> Option<Mutant>
             // a method that is not a function
             let end = *rng.pick(NOT_FUNC_ENDS);
             let chain = rng.usize(4); // 0 = written directly
+            let mut mention_in_method = false;
+            let mut mention_head = String::new();
             let (mty, how) = if chain == 0 {
                 match end {
                     // `m : nat` — reads as a name that is not defined; `m : record {}` is no <methtype> at all
@@ -769,7 +771,29 @@ pub fn gen_mutant_of(rng: &mut Rng, orig: &Prog, which: usize) -> Option<Mutant>
             } else {
                 let ty = not_func_end(rng, end);
                 let head = add_chain(&mut p, rng, chain, ty, "NotFunc");
-                (MethTy::Var(head), format!("alias-{end}-chain{chain}"))
+                // the alias may also be used (legally, as a data type) elsewhere: by another definition, whose name
+                // sorts before or after everything else, or by an earlier method of the same service
+                let mention = rng.below(5);
+                let mut how = format!("alias-{end}-chain{chain}");
+                match mention {
+                    0 | 1 => {
+                        let stem = if mention == 0 { "AaUse" } else { "zzUse" };
+                        let n = fresh_def_name(&p, rng, stem);
+                        let body = match rng.below(3) {
+                            0 => Ty::opt(Ty::Var(head.clone())),
+                            1 => Ty::vec(Ty::Var(head.clone())),
+                            _ => Ty::Record(vec![Field::new(Label::Named("x".into()), Ty::Var(head.clone()))]),
+                        };
+                        let d = simple_def(&n, body);
+                        insert_def(&mut p, rng, d);
+                        how.push_str("+mentioned-by-definition");
+                    }
+                    2 => how.push_str("+mentioned-by-method"),
+                    _ => {}
+                }
+                mention_in_method = mention == 2;
+                mention_head = head.clone();
+                (MethTy::Var(head), how)
             };
             let pos = with_methods(&mut p, rng, &mut |ms, rng| {
                 let name = fresh_method_name(ms, rng);
@@ -782,6 +806,17 @@ pub fn gen_mutant_of(rng: &mut Rng, orig: &Prog, which: usize) -> Option<Mutant>
                         docs: vec![],
                     },
                 );
+                if mention_in_method {
+                    let name = fresh_method_name(ms, rng);
+                    ms.insert(
+                        0,
+                        Method {
+                            name,
+                            ty: MethTy::Func(Func { args: vec![ArgTy::plain(Ty::Var(mention_head.clone()))], rets: vec![], modes: vec![] }),
+                            docs: vec![],
+                        },
+                    );
+                }
             });
             (FaultKind::MethodNotFunc(how), pos)
         }
